@@ -257,6 +257,7 @@ def run(ctx):
     compare_exhaustive(ctx, g)
     structural_equality(ctx, g)
     canonical_renumbering(ctx, g)
+    code_numbering(ctx, g)
     ctx.floor("chamber-indexed tables in canonical", chamber_tables(ctx, "T4-chamber-table", ctx.body("derived::canonical"), g), 1)
     code_content(ctx, g)
 
@@ -456,6 +457,78 @@ def canonical_renumbering(ctx, g):
                 bad = "the inverse map is not filled for every chamber 1..=size()"
     ctx.ob("T9-canonical-renumbering", b.name, "maps", "ok" if not bad else "violation",
            "src2img = minimal_traversal_code(ds).get_map(); img2src[src2img[d]] = d for d in 1..=size()" if not bad else bad)
+
+
+def code_numbering(ctx, g):
+    """the traversal code of a seed: chambers are numbered 1, 2, .. in the order the traversal first reaches them (element_map[d] set once, when still 0,
+    to next_element; next_element advanced by exactly 1 for exactly the chambers just numbered), over ALL operations 0..=dim(); a seed item is
+    coded with a negative marker (it must sort before every operation index 0..); two codes that agree on every position of the shorter one
+    compare as equal (0)"""
+    ctx.clauses.append("traversal code: all operations 0..=dim; consecutive numbering from 1 in order of first visit; negative seed marker; exhausted comparison answers 0 (T4)")
+    T = "dsyms::TraversalCode::<'a, T>::"
+    nb = ctx.body(T + "new")
+    ds, seed = ("param", 1, nb.debug.get(1, "")), ("param", 2, nb.debug.get(2, ""))
+    bad = None
+    tr = [[strip(norm(nb.origin(x), g)) for x in t["args"]] for bi, t in nb.calls("DSet::traversal")]
+    ag = [s["rv"] for bi, si, s in nb.assigns() if s["rv"]["k"] == "aggregate" and s["rv"].get("agg") == "adt" and s["rv"].get("adt", "").endswith("TraversalCode")]
+    if len(tr) != 1 or len(ag) != 1:
+        bad = "not one traversal and one TraversalCode { .. }"
+    else:
+        r = tr[0][1]
+        okr = is_call(r, "RangeInclusive::<Idx>::new") and eval_int(r[2][0]) == 0 and is_call(strip(r[2][1]), "::dim")
+        seeds = tr[0][2]
+        fields = dict(zip(ag[0]["fields"], [strip(norm(nb.origin(o), g)) for o in ag[0]["ops"]]))
+        if not okr:
+            bad = "the code does not traverse all operations 0..=dim()"
+        elif not (seeds[0] == "agg" and [strip(x) for x in seeds[2]] == [seed]):
+            bad = "the traversal is not seeded with the given chamber alone"
+        elif eval_int(fields.get("next_element", ("?",))) != 1:
+            bad = "numbering does not start at 1 (0 means `not numbered yet`)"
+        elif chamber_tables(ctx, "T4-chamber-table", nb, g, fill=0) != 1:
+            bad = "element_map is not one chamber-indexed table"
+    ctx.ob("T4-code-numbering", nb.name, "new", "ok" if not bad else "violation", "traversal(0..=dim(), [seed]); next_element = 1; element_map = vec![0; size() + 1]" if not bad else bad)
+    ab = ctx.body(T + "advance")
+    me = ("param", 1, ab.debug.get(1, ""))
+    emap, nxt = ("field", me, "element_map"), ("field", me, "next_element")
+    bad = None
+    stores = []
+    for bi, si, s in ab.assigns():
+        pl = s["place"]["p"]
+        if [e["k"] for e in pl] == ["deref"]:
+            tgt = strip(norm(ab.local_origin(s["place"]["l"]), g))
+            if is_call(tgt, "IndexMut::index_mut") and strip(tgt[2][0]) == emap:
+                stores.append((bi, strip(tgt[2][1]), strip(norm(ab.rv_origin(s["rv"]), g))))
+    incs = [(bi, unov_deep(strip(norm(ab.rv_origin(s["rv"]), g)))) for bi, si, s in ab.assigns() if [e["k"] for e in s["place"]["p"]] in (["deref", "field"], ["field"]) and s["place"]["p"][-1].get("name") == "next_element"]
+    if len(stores) != 1 or stores[0][2] != nxt:
+        bad = "a chamber is not numbered by element_map[d] = next_element"
+    elif len(incs) != 1 or incs[0][1] != ("binop", "Add", nxt, ("int", 1)):
+        bad = "next_element is not advanced by exactly 1: %s" % [show(x[1], 1)[:40] for x in incs]
+    else:
+        sb_, dch, _ = stores[0]
+        ent = [y for x in ab.facts_at(sb_) for y in subterms(("agg", "x", tuple(z for z in atom_norm(x, g)[1:] if isinstance(z, tuple)))) if isinstance(y, tuple) and as_index(y) and as_index(y)[0] == emap and strip(as_index(y)[1]) == dch]
+        ent = ent[0] if ent else None
+        for ev_, want in ((0, True), (1, False), (4, False)):
+            r = reachable_sites(ab, g, {sb_}, lambda y, ev_=ev_: ev_ if y == ent else None)
+            if ent is None or (sb_ in r) != want:
+                bad = bad or "a chamber whose entry is %d %s numbered (only entries 0 = not yet numbered)" % (ev_, "is" if ent is not None and sb_ in r else "is not")
+        ib = incs[0][0]
+        fa = [atom_norm(x, g) for x in ab.facts_at(ib)]
+        fresh = any(x[0] == "rel" and x[1] == "Eq" and nxt in (strip(x[2]), strip(x[3])) and any(as_index(strip(z)) and as_index(strip(z))[0] == emap for z in (x[2], x[3])) for x in fa)
+        if not bad and not fresh:
+            bad = "next_element is not advanced exactly for the chamber just numbered (element_map[d] == next_element)"
+        # the seed marker
+        if not bad:
+            consts = [eval_int(strip(norm(ab.origin(t["args"][1]), g))) for bi, t in ab.calls("Vec::<T, A>::push")]
+            consts = [c for c in consts if c is not None]
+            if len(consts) != 1 or consts[0] >= 0:
+                bad = "a seed item is not coded with one negative marker (it must differ from, and sort before, every operation index): %s" % consts
+    ctx.ob("T4-code-numbering", ab.name, "numbering", "ok" if not bad else "violation", "numbered iff entry == 0; next_element += 1 iff just numbered; negative seed marker" if not bad else bad)
+    cb = ctx.body("dsyms::compare_codes")
+    rets = [(dbb, strip(norm(d, g))) for dbb, d in cb.all_defs_origins(0)]
+    consts = [eval_int(d) for dbb, d in rets if eval_int(d) is not None]
+    ok = consts and all(c == 0 for c in consts) and len([1 for dbb, d in rets if eval_int(d) is None]) == 1
+    ctx.ob("T4-code-numbering", cb.name, "exhausted -> 0", "ok" if ok else "violation",
+           "codes that agree on the whole of the shorter one compare as 0; otherwise the first difference" if ok else "compare_codes does not answer 0 when no difference was found: constants returned %s" % consts)
 
 
 def not_truncated(ctx, g):
